@@ -157,3 +157,53 @@ def make_callable(rng, A, style=None):
             calls[0] += 1
             return x[:] if view else x
     return f, style, calls
+
+
+def coefficient_zero(rng, A, v, k=None, tries=6):
+    """
+    A complex time argument z at which the k-th Krylov coefficient of exp(z A) v vanishes: c_k(z) = q_k^H exp(z A) q_0 with q_j the (independent,
+    re-orthogonalised) Krylov basis; c_k is an entire function with isolated zeros at |z| * spread(A) ~ 3..6. Found by Newton iteration from random
+    starts. Returns (z, k) or None. At such a z the exact result has a vanishing component along q_k while later components are of order one --
+    hostile for any code that truncates the Krylov expansion at the first negligible coefficient.
+    """
+    n = len(v)
+    res, Q = krylov_residuals(A, v, n + 1, basis=True)
+    kd = Q.shape[1]
+    if kd < 3:
+        return None
+    if np.linalg.norm(A - A.conj().T) > 1e-13 * max(np.linalg.norm(A), 1e-300):
+        return None
+    lam, U = np.linalg.eigh((A + A.conj().T) / 2)
+    spread = max(lam[-1] - lam[0], 1e-300)
+    a0 = U.conj().T @ Q[:, 0]
+    for _ in range(tries):
+        kk = int(rng.integers(1, kd - 1)) if k is None else k          # a later coefficient (kk+1 .. kd-1) remains
+        ak = U.conj().T @ Q[:, kk]
+        w = np.conj(ak) * a0                                            # c_k(z) = sum_j w_j exp(z lam_j)
+        z = complex(rng.normal(), rng.normal())
+        z = z / abs(z) * float(rng.uniform(3.0, 6.0)) / spread
+        ok = False
+        for _ in range(60):
+            e = np.exp(z * lam)
+            f = np.sum(w * e)
+            df = np.sum(w * lam * e)
+            if abs(f) < 1e-300:
+                ok = True
+                break
+            # c_k has a zero of order k at the origin (q_k is orthogonal to q_0 .. A^(k-1) q_0): Newton on the deflated function c_k(z) / z**k
+            den = df / f - kk / z
+            if abs(den) < 1e-300:
+                break
+            step = 1.0 / den
+            z = z - step
+            if abs(z) * spread > 40:
+                break
+            if abs(step) < 1e-15 * max(abs(z), 1e-300):
+                ok = True
+                break
+        if ok and abs(z) * spread > 0.5 and abs(np.sum(w * np.exp(z * lam))) < 1e-14 * np.exp(max((z * lam).real)) and abs(z.real) * spread < 12:
+            # later coefficients of order one?
+            later = max(abs(np.sum(np.conj(U.conj().T @ Q[:, j]) * a0 * np.exp(z * lam))) for j in range(kk + 1, kd))
+            if later > 1e-3 * np.exp(max((z * lam).real)):
+                return z, kk
+    return None
